@@ -2,7 +2,6 @@
 package ev
 
 import (
-	_ "unsafe"
 	"encoding/json"
 	"fmt"
 	"os"
@@ -12,6 +11,7 @@ import (
 	"strings"
 	"sync"
 	"time"
+	_ "unsafe"
 )
 
 // Tier returns "quick" or "thorough" (env VERIF_TIER).
